@@ -46,7 +46,8 @@ def run(chk):
     vd = c15.doc_bin()
     quick = chk.tier == "quick"
     chk.rule = "seeded SGR-rich XML-representable texts x palette x default colours x background (non-trivial: every document contains SGR and XML-special text)"
-    chk.assumptions = ["well-formedness is expat's verdict; the class->meaning mapping is read from the document's own <style> sheet",
+    chk.assumptions = ["DEL (U+007F) is not generated: the statement does not say whether it is visible text (the extractor prints it, the renderer draws a block for it)",
+                       "well-formedness is expat's verdict; the class->meaning mapping is read from the document's own <style> sheet",
                        "lenient SGR reading as in C07; lone CR and U+000C/U+FFFE/U+FFFF are outside the domain",
                        "background rows are compared as sets of colours per line (block widths depend on Unicode width tables)"]
     wd = vlib.workdir("c14")
